@@ -250,6 +250,33 @@ func (ps *pathState) concretize(t *Term) uint64 {
 	}
 }
 
+// chooseFresh enumerates the k values of a fresh variable t in [0,k) directly:
+// no other constraint mentions t yet, so every value is feasible and no solver
+// call is needed to fork.
+func (ps *pathState) chooseFresh(t *Term, k int) uint64 {
+	if ps.pos < len(ps.prefix) {
+		d := ps.prefix[ps.pos]
+		if !d.IsVal || !d.Taken {
+			ps.end("nondet-mismatch", "replayed decision kind differs (expected choice)")
+		}
+		ps.pos++
+		ps.res.Trace = append(ps.res.Trace, d)
+		ps.solver.Assert(ps.ts.Cmp("=", t, ps.ts.Const(t.sort, d.Val)))
+		ps.res.Decisions++
+		return d.Val
+	}
+	for v := 1; v < k; v++ {
+		sib := make([]Decision, len(ps.res.Trace), len(ps.res.Trace)+1)
+		copy(sib, ps.res.Trace)
+		sib = append(sib, Decision{Taken: true, IsVal: true, Val: uint64(v)})
+		ps.res.Siblings = append(ps.res.Siblings, sib)
+	}
+	ps.res.Trace = append(ps.res.Trace, Decision{Taken: true, IsVal: true, Val: 0})
+	ps.res.Decisions++
+	ps.solver.Assert(ps.ts.Cmp("=", t, ps.ts.Const(t.sort, 0)))
+	return 0
+}
+
 func (ps *pathState) assume(cond *Term) {
 	if cond.IsConst() {
 		if cond.val == 0 {
